@@ -15,7 +15,7 @@ RULE = ("subsample / downsample / powerlaw_sample run under the RNG seam: every 
 ASSUMPTIONS = ["uniform variates cannot be enumerated: answered from the boundary grid %r (both ends of [0,1))" % (UNIFORM_GRID,),
                "ordered samples are enumerated when there are at most 720 of them, otherwise every unordered subset in ascending and descending order",
                "'exact' MLE: the log-likelihood is concave in alpha, so the maximiser lies within one grid step of the best of 3001 grid points"]
-REQUIRED_CLASSES = {"all": ["subsample-n-equals-total", "subsample-n-too-large", "zero-count-category", "downsample-identity", "downsample-table", "uniform-near-1", "mle-all-counts-equal-cmin", "many-categories", "sparse-draw", "transformation-overflows"]}
+REQUIRED_CLASSES = {"all": ["subsample-n-equals-total", "subsample-n-too-large", "zero-count-category", "downsample-identity", "downsample-table", "uniform-near-1", "mle-all-counts-equal-cmin", "many-categories", "sparse-draw", "transformation-overflows", "optimiser-stopped-early"]}
 MIN_OUTCOMES = 10
 
 
@@ -365,6 +365,15 @@ def check_case(case, acc):
                     acc.fail("powerlaw_mle_alpha/exact", ("mle1", case[1], cmin, "exact"), {"grid_argmax": grid[best], "bounds": bounds}, r)
                     return
                 acc.ok(("exact", cmin, round(grid[best], 3)), nontrivial=True)
+                if bounds == (1.5, 4.5):
+                    # optimiser options are forwarded; an optimiser that is stopped early must not pass off its last iterate as the
+                    # maximiser: either it refuses (raises) or the answer is the maximiser
+                    acc.cls("optimiser-stopped-early")
+                    r3 = acc.call(pyrepseq.powerlaw_mle_alpha, np.array(c), cmin=cmin, method="exact", options=dict(maxiter=3))
+                    if not raised(r3) and not (abs(float(r3) - grid[best]) <= 2 * step + 1e-4):
+                        acc.fail("powerlaw_mle_alpha/exact/early-stop-returned-as-maximiser", ("mle1", case[1], cmin, "exact"), {"grid_argmax": grid[best], "or": "an exception"}, r3)
+                        return
+                    acc.ok()
         r = acc.call(pyrepseq.powerlaw_mle_alpha, c, method="nonsense")
         if not (raised(r) and r.type == "ValueError"):
             acc.fail("powerlaw_mle_alpha/unknown-method-accepted", case, "ValueError", r)
